@@ -3,6 +3,7 @@
 SPECIFICATION Spec
 CONSTANTS
   EmitEdges = FALSE
+  Reqs = "all"
   MaxReq = 2
   Mut = "tx-without-role-check"
 VIEW view
